@@ -42,6 +42,9 @@ type c16Params struct {
 	BigStream bool
 	// SlowPeer: the transport accepts 64 bytes and nothing more until 1 s
 	SlowPeer bool
+	// PeerPing: as soon as the peer sees the Close frame it sends a Ping (which the endpoint still
+	// answers: whatever the Pong's write flushes comes after the Close frame)
+	PeerPing bool
 }
 
 type c16State struct {
@@ -137,6 +140,9 @@ func c16Setup(prm c16Params) func(c *fw.Ctx, name string) explore.Setup {
 						cf = f
 						return ok
 					})
+					if ok && prm.PeerPing {
+						st.p.Send(peerFrame(k, frame.Frame{Fin: true, Opcode: frame.OpPing, Payload: []byte("pp")}))
+					}
 					if !ok || prm.Echo == "never" || prm.Init != "local" && prm.Init != "closeread" {
 						return
 					}
@@ -333,6 +339,12 @@ func c16Scenarios(tier string) []scenario {
 		}
 		add(c16Params{Name: "peer-w1", K: k, Init: "peer", Echo: "early", Writers: 1}, P(1), P(2))
 		add(c16Params{Name: "proto-w1", K: k, Init: "proto", Echo: "early", Writers: 1}, P(1), P(2))
+		// a compressed stream (context takeover) that has a frame on the wire when the Close frame
+		// goes out: the rest of the message stays unsent
+		add(c16Params{Name: "local-never-wbig", K: k, Init: "local", Echo: "never", Writers: 2, BigStream: true}, P(0), P(1))
+		// (with a peer that takes 64 bytes and then nothing until 1 s the streamer parks inside its
+		// first frame: the Close frame queues behind it without a preemption)
+		add(c16Params{Name: "local-never-wbig-slowpeer", K: k, Init: "local", Echo: "never", Writers: 2, BigStream: true, SlowPeer: true}, P(0), P(1))
 	}
 	for _, k := range roles {
 		for _, echo := range []string{"early", "late", "never"} {
@@ -341,6 +353,11 @@ func c16Scenarios(tier string) []scenario {
 			add(c16Params{Name: "local-" + echo + "-w2", K: k, Init: "local", Echo: echo, Writers: 2}, P(1), P(2))
 		}
 		add(c16Params{Name: "local-early-ping", K: k, Init: "local", Echo: "early", Writers: 1, Pinger: true}, P(1), P(2))
+		// the peer sends a Ping when it sees the Close frame (a streamed message's small fragment may
+		// still sit in the write buffer at that point), echoing late or never
+		add(c16Params{Name: "local-late-w2-peerping", K: k, Init: "local", Echo: "late", Writers: 2, PeerPing: true}, P(1), P(2))
+		add(c16Params{Name: "local-never-w2-peerping", K: k, Init: "local", Echo: "never", Writers: 2, PeerPing: true}, P(1), P(2))
+		add(c16Params{Name: "closeread-w2-peerping", K: k, Init: "closeread", Echo: "late", Writers: 2, PeerPing: true}, P(1), P(2))
 		// a streamed fragment larger than the write buffer against a local Close, with a fast and with a slow peer
 		add(c16Params{Name: "local-early-wbig", K: k, Init: "local", Echo: "early", Writers: 2, BigStream: true}, P(1), P(2))
 		add(c16Params{Name: "local-never-wbig-slowpeer", K: k, Init: "local", Echo: "never", Writers: 2, BigStream: true, SlowPeer: true}, P(2), P(3))
